@@ -4,8 +4,15 @@ from . import handlers, sqlunits
 LEVEL = "other"
 EXPLANATION = "trace obligations of the real handlers (layer L2) selected by the prefix C18/"
 ASSUMPTIONS = []
-TRUSTED = []
+TRUSTED = ["native comparison harness replay/bounded/c16_plan_merge.py (bounded stand-in: planning keeps the stage's own list-valued "
+           "context keys, such as the signal mailbox _buffered_signals, entry for entry)"]
 
 
 def units(tier):
     return sqlunits.units_for("C18") + handlers.units_for("C18")
+
+
+def extras(tier, seed):
+    from pyvc.bounded import run_bounded
+
+    return [run_bounded("C18", "c16_plan_merge.py", "C18/bounded/planning-keeps-the-signal-mailbox", tier, seed)]
